@@ -237,3 +237,17 @@ Proof.
   apply (supercell_repeat_rankZ n n' p E E' (Z.of_nat r0) (Z.of_nat r1) (Z.of_nat r2) (rep_at n) (rep_sh r1 r2 n)); [|exact Hc].
   intro Hz. apply Z.mul_eq_0 in Hz. destruct Hz as [Hz|Hz]; [apply Z.mul_eq_0 in Hz; destruct Hz as [Hz|Hz]|]; lia.
 Qed.
+
+(* in the property's family (GF(2) rank = integer rank on both presentations) the whole answer of the specification agrees *)
+Corollary supercell_dim_spec_family n n' p E E' r0 r1 r2 r r2' rz' :
+  0 < r0 -> 0 < r1 -> 0 < r2 -> cover_repeat_b n n' p E E' r0 r1 r2 = true ->
+  dim_spec n p E = Some (r, r) -> dim_spec n' p E' = Some (r2', rz') -> r2' = rz' ->
+  dim_spec n' p E' = dim_spec n p E.
+Proof.
+  intros H0 H1 H2 Hc Hs Hs' Hfam. unfold dim_spec in *.
+  destruct (all_placed (potentials n E)) eqn:P; [|discriminate].
+  destruct (all_placed (potentials n' E')) eqn:P'; [|discriminate].
+  pose proof (supercell_repeat_rankZ_nat n n' p E E' r0 r1 r2 H0 H1 H2 Hc P P') as Hz.
+  injection Hs as Ha Hb. injection Hs' as Ha' Hb'.
+  f_equal. f_equal; congruence.
+Qed.
